@@ -104,10 +104,10 @@ def Expr.lvl : Expr → Option Nat
   | .array es => if es.ok then some 0 else none
   | .structural _ fs => if fs.ok then some 0 else none
   | .paren e => if e.lvl.isSome then some 0 else none
-  | .deref d _ st => if st.ok && decide (d ≤ 127) && decide (st.count ≤ 126) then some 0 else none
+  | .deref d _ st => if st.ok && decide (d ≤ 127) && decide (st.count ≤ 127) then some 0 else none
   | .call _ _ args => if args.ok then some 0 else none
   | .un _ e => if leN e.lvl 0 then some 1 else none
-  | .lengthOf d _ st => if st.ok && decide (d ≤ 127) && decide (st.count ≤ 126) then some 1 else none
+  | .lengthOf d _ st => if st.ok && decide (d ≤ 127) && decide (st.count ≤ 127) then some 1 else none
   | .sizeOf _ => some 1
   | .bitcast e => if leN e.lvl 1 then some 2 else none
   | .typecast e _ => if leN e.lvl 2 then some 2 else none
@@ -250,7 +250,7 @@ mutual
 /-- the statements the parser can produce (and the printer can print back) -/
 def Stmt.ok : Stmt → Bool
   | .var _ _ val => optOk val
-  | .assign d _ st e => st.ok && decide (d ≤ 127) && decide (st.count ≤ 126) && e.lvl.isSome
+  | .assign d _ st e => st.ok && decide (d ≤ 127) && decide (st.count ≤ 127) && e.lvl.isSome
   | .mcall _ _ args => args.ok
   | .loop => true
   | .goto _ => true
